@@ -268,13 +268,25 @@ class TensorToFunsor(Contract):
                     if not dims:
                         continue
                     yield "batch=%d,event=%d,named=%s" % (b, e, dims), (b, e, dims)
+                    if len(dims) >= 2:
+                        # the same naming with the dim_to_name dict LISTED in descending / rotated dim order
+                        yield "batch=%d,event=%d,named=%s,listed-descending" % (b, e, dims), (b, e, dims, "desc")
+                        if len(dims) >= 3:
+                            yield "batch=%d,event=%d,named=%s,listed-rotated" % (b, e, dims), (b, e, dims, "rot")
 
     def build(self, p, st):
-        b, e, dims = st
+        order = st[3] if len(st) > 3 else "asc"
+        b, e, dims = st[:3]
+        st = (b, e, dims)
         bs = sizes(p, b, "b")
         es = sizes(p, e, "e")
         x = fresh_array(p, "x", tuple(bs) + tuple(es))
-        d2n = OrderedDict((d - b, NAMES[i]) for i, d in enumerate(dims))  # negative dims counted from the event boundary
+        items = [(d - b, NAMES[i]) for i, d in enumerate(dims)]  # negative dims counted from the event boundary
+        if order == "desc":
+            items = items[::-1]
+        elif order == "rot":
+            items = items[1:] + items[:1]
+        d2n = OrderedDict(items)
         out = MDom("real", tuple(es))
         return Ctx(args=(x, out, d2n), namespace=TENSOR_NS, x=x, bs=bs, es=es, st=st, p=p, d2n=d2n)
 
@@ -1305,3 +1317,90 @@ class TensorSample(Contract):
         from .c_terms import mul_hints
 
         return div_hints(path) + mul_hints(path)
+
+
+@register
+class EagerEinsum(Contract):
+    """eager_einsum(op, operands): every named input gets a FRESH einsum symbol -- pairwise distinct and different from
+    every symbol of the user's equation, whatever letters the equation uses -- each operand's subscripts are its input
+    symbols (in its own input order) followed by its event subscripts, and the output subscripts are all input symbols (in
+    union order) followed by the equation's output; so named dims are batched, never contracted or diagonalised with an
+    event index. opt_einsum.get_symbol is modelled as the injective enumeration a, b, c, ...
+    structure bound: <= 2 operands, <= 3 named inputs, equations over letters anywhere in the alphabet."""
+
+    props = ("C01",)
+    file = "funsor/tensor.py"
+    qualname = "eager_einsum"
+    total = True
+    mutants = (("fresh symbols assumed to follow the equation's", "        symbol = next(get_symbol)\n        while symbol in symbols:\n            symbol = next(get_symbol)\n", "        symbol = next(get_symbol)\n"),)
+
+    EQS = ["ab,bc->ac", "bi,io->bo", "ij,jk->ik", "a,a->", "ca,ab->cb", "zy,yx->zx", "ab->ba", "ba->a"]
+
+    def structures(self, tier):
+        for eq in self.EQS:
+            nops = eq.split("->")[0].count(",") + 1
+            pools = ["", "u", "uv", "vu", "uvw"]
+            for ins in itertools.product(pools, repeat=nops):
+                if tier == "quick" and sum(map(len, ins)) > 4:
+                    continue
+                yield "eq=%s,inputs=%s" % (eq, [i or "-" for i in ins]), (eq, ins)
+
+    def build(self, p, st):
+        eq, ins = st
+        rec = []
+
+        class X:
+            def __init__(self, names, k):
+                self.inputs = OrderedDict((n, "dom_" + n) for n in names)
+                self.data = "data%d" % k
+
+        operands = tuple(X(names, k) for k, names in enumerate(ins))
+
+        class OE:
+            @staticmethod
+            def get_symbol(i):
+                return "abcdefghijklmnopqrstuvwxyz"[i] if i < 26 else chr(192 + i)
+
+        class OpsNS:
+            @staticmethod
+            def einsum(datas, equation):
+                rec.append((list(datas), equation))
+                return ("einsum", equation)
+
+        import itertools as it
+
+        ns = dict(OrderedDict=OrderedDict, opt_einsum=OE, itertools=it, ops=OpsNS, Tensor=lambda d, i: ("Tensor", d, list(i)), set=set, iter=iter, map=map, next=next, zip=zip)
+        return Ctx(args=(GetOp(equation=eq), operands), namespace=ns, rec=rec, st=st)
+
+    def ensures(self, ctx, result):
+        eq, ins = ctx.st
+        if len(ctx.rec) != 1:
+            return [("one_einsum_call", False)]
+        datas, new_eq = ctx.rec[0]
+        union = []
+        for names in ins:
+            for n in names:
+                if n not in union:
+                    union.append(n)
+        lhs, out = new_eq.split("->")
+        parts = lhs.split(",")
+        uins, uout = eq.split("->")
+        uparts = uins.split(",")
+        ok_shape = len(parts) == len(ins) and all(pt.endswith(u) and len(pt) == len(names) + len(u) for pt, u, names in zip(parts, uparts, ins)) and out.endswith(uout) and len(out) == len(union) + len(uout)
+        if not ok_shape:
+            return [("subscripts_are_input_symbols_then_event_subscripts", False)]
+        sym = {}
+        consistent = True
+        for pt, names in zip(parts, ins):
+            for n, s in zip(names, pt[: len(names)]):
+                if sym.setdefault(n, s) != s:
+                    consistent = False
+        osyms = out[: len(union)]
+        fresh = set(sym.values())
+        return [
+            ("subscripts_are_input_symbols_then_event_subscripts", True),
+            ("same_symbol_for_the_same_input_everywhere", consistent and [sym.get(n) for n in union] == list(osyms)),
+            ("input_symbols_pairwise_distinct", len(fresh) == len(sym)),
+            ("input_symbols_disjoint_from_the_equation", not (fresh & set(eq))),
+            ("operands_in_order_and_result_over_the_union", datas == ["data%d" % k for k in range(len(ins))] and result == ("Tensor", ("einsum", new_eq), union)),
+        ]
